@@ -166,13 +166,13 @@ def run(ctx):
         "theorem": ["READER OBJECT STATE (round 4, model/ReaderReuse.v): SAMI line / first_alignment, DFXP nodes, MicroDVD fps, WebVTT "
                     "previous start under its options - every history of documents on one object incl. raising reads gives the "
                     "fresh-object results under the code's resets; redundant resets identified; partial resets refuted by "
-                    "two-document witnesses (C10_par_/C10_mdvd_/C10_vtt_reader_history_isolated, ..._refuted); executed against "
+                    "two-document witnesses (C10_par_/C10_mdvd_/C10_vtt_reader_history_isolated_unfold, ..._refuted); executed against "
                     "the real reused readers (request 1003)",
                     "SCC READER REUSE (wave 7, over the decoder model): a read() of an SCCReader object in ANY state returns what "
                     "a new object returns, for every document / offset, provided the reset covers the twelve decoder fields; "
                     "lifted to every history of documents incl. refused ones; the code's reset covers them; refuted for "
-                    "no reset and for six single-field omissions (C10_scc_read_independent_of_reader_state, "
-                    "C10_scc_reader_history_isolated, C10_scc_partial_resets_refuted); the model is executed against the "
+                    "no reset and for six single-field omissions (C10_scc_read_independent_of_reader_state_unfold, "
+                    "C10_scc_reader_history_isolated_unfold, C10_scc_partial_resets_refuted); the model is executed against the "
                     "real reused reader on generated document sequences (request 1002)",
                     "THE MODEL MEETS THE ORACLE: ok_c10 evaluated on the model's own observations of any history reports "
                     "nothing (C10_model_meets_oracle)",
@@ -305,6 +305,73 @@ def gen_scc_docs(rng):
     return docs
 
 
+# ---- audit (wave 7): the reuse model made testable - the real reader with ONE attribute kept across _reset_state --------------
+# buffer_dict: the kept NotifyingDict holds node creators that reference the OLD position tracker object while the model has one
+# tracker for all buffers - the surgery is not the model's "fields 4-7 kept"; counted, not alarmed
+KEEP_COUNTED_ONLY = ("buffer_dict",)
+KEEP_GROUPS = [("caption_stash", ["caption_stash"], [0]), ("node_creator_factory", ["node_creator_factory"], [1]),
+               ("last_command", ["last_command"], [2]), ("double_starter", ["double_starter"], [3]),
+               ("buffer_dict", ["buffer_dict"], [4, 5, 6, 7]), ("pop_ons_queue", ["pop_ons_queue"], [8]),
+               ("time", ["time"], [9]), ("time_translator", ["time_translator"], [10, 11])]
+
+
+def _scc_doc(lines):
+    return "Scenarist_SCC V1.0\n\n" + "\n\n".join("%s\t%s" % (tc, " ".join(ws)) for tc, ws in lines) + "\n"
+
+
+_HELLO, _BYE = ["c8e5", "ecec", "ef80"], ["c2f9", "e580"]
+_A = [("00:00:01:00", ["94ae", "94ae", "9420", "9420", "9470", "9470"] + _HELLO + ["942f", "942f"]), ("00:00:03:00", ["942c", "942c"])]
+_B = [("00:00:05:00", ["94ae", "94ae", "9420", "9420", "9440", "9440"] + _BYE + ["942f", "942f"]), ("00:00:07:00", ["942c", "942c"])]
+# the witnesses of C10_scc_partial_resets_refuted (proofs/SccReuseExamples.v), as texts
+SCC_WITNESSES = [
+    [_scc_doc(_A), _scc_doc(_B)],
+    [_scc_doc(_A), _scc_doc([("00:00:05:00", ["94ae", "94ae", "9420", "9420"] + _BYE + ["942f", "942f"]), ("00:00:07:00", ["942c", "942c"])])],
+    [_scc_doc(_A + [("00:00:04:00", ["9470"])]),
+     _scc_doc([("00:00:05:00", ["9470"] + _BYE + ["942f", "942f"]), ("00:00:07:00", ["942c", "942c"])])],
+    [_scc_doc([("00:00:01:00", ["9420", "9420", "9470", "9470"] + _HELLO)]),
+     _scc_doc([("00:00:05:00", ["9420", "9420", "9440", "9440"] + _BYE + ["942f", "942f"]), ("00:00:07:00", ["942c", "942c"])])],
+    [_scc_doc([("00:00:01:00", ["9429", "9429", "9470", "9470"] + _HELLO)]),
+     _scc_doc([("00:00:05:00", ["9440", "9440"] + _BYE), ("00:00:07:00", ["942c", "942c"])])],
+    [_scc_doc(_A[:1] + [("00:00", ["942c"])]), _scc_doc(_B)],
+]
+
+
+def scc_real_keep(docs, attrs):
+    """the results of every read of `docs` on ONE SCCReader whose _reset_state leaves the attributes `attrs` as the last read
+    left them (the class method is wrapped for the duration, so every way of calling it is covered); None when the class has no
+    _reset_state"""
+    import sccobs as O
+    import impl
+    from pycaption import SCCReader
+    orig = SCCReader.__dict__.get("_reset_state")
+    if orig is None:
+        return None
+
+    def wrapped(self):
+        saved = {a: getattr(self, a) for a in attrs if hasattr(self, a)}
+        orig(self)
+        for a, v in saved.items():
+            if a == "node_creator_factory":
+                # the position tracker is ONE object shared by the factory and the node creators made from it: keep its
+                # state inside the new object (rebinding the factory would leave the new creators with the new tracker)
+                self.node_creator_factory.position_tracker.__dict__.update(v.position_tracker.__dict__)
+            else:
+                setattr(self, a, v)
+    out = []
+    SCCReader._reset_state = wrapped
+    try:
+        r = SCCReader()
+        for d, off in docs:
+            x = impl.call(lambda: r.read(d, offset=off))
+            if isinstance(x, O.Err):
+                out.append(("len", str(impl.last_exc.args[0])) if x.code == 4 else x)
+            else:
+                out.append(O.Ok([O.canon_caption(c) for c in x.v.get_captions(x.v.get_languages()[0])]))
+    finally:
+        SCCReader._reset_state = orig
+    return out
+
+
 def scc_real(docs):
     """-> (results of read k on ONE reader object, results of read k on a new reader object)"""
     import sccobs as O
@@ -341,7 +408,7 @@ def scc_reuse_stream(ctx, res):
     import sccobs as O
     rng = random.Random(ctx.rng.getrandbits(64))
     n = ctx.n(50, 250)
-    hs = [gen_scc_docs(rng) for _ in range(n)]
+    hs = [[[d, 0] for d in w] for w in SCC_WITNESSES] + [gen_scc_docs(rng) for _ in range(n)]
     dist = res["distribution"]
     full = list(range(12))
     m_full = scc_model(hs, full)
@@ -382,6 +449,36 @@ def scc_reuse_stream(ctx, res):
                 res["disagreements"].append({"what": "SCC reader reuse: read %d on the reused object vs decoder-state model: %s"
                                                      % (k + 1, O.same(a, b)), "history": docs, "op_index": k})
                 break
+    # the reuse model against the code: the REAL reader with one attribute kept across _reset_state == reader_history without
+    # the corresponding fields (alarm level), on the sequences on which the fresh reads agree with the decoder model
+    in_dom = []
+    for docs, m in zip(hs, m_full):
+        fresh = [O.observe(d, offset=off) for d, off in docs]
+        in_dom.append(m is not None and all(O.same(a, b) is None for a, b in zip(fresh, m[1])))
+    keep_stats = {}
+    for name, attrs, codes in KEEP_GROUPS:
+        m_wo = scc_model(hs, [f for f in full if f not in codes])
+        cmp_, differs_from_fresh, bad = 0, 0, 0
+        for docs, mf, mw, ok in zip(hs, m_full, m_wo, in_dom):
+            if not ok or mw is None:
+                continue
+            real = scc_real_keep(docs, attrs)
+            if real is None:
+                break
+            cmp_ += 1
+            if any(O.same(a, b) is not None for a, b in zip(mw[1], mf[1])):
+                differs_from_fresh += 1
+            for k, (a, b) in enumerate(zip(real, mw[1])):
+                if O.same(a, b) is not None:
+                    bad += 1
+                    if name not in KEEP_COUNTED_ONLY:
+                        res["disagreements"].append({"what": "SCC reader with %s kept across _reset_state: read %d vs reader_history "
+                                                             "without fields %s: %s" % (name, k + 1, codes, O.same(a, b)),
+                                                     "history": docs, "op_index": k})
+                    break
+        keep_stats[name] = {"sequences_compared": cmp_, "on_which_the_model_result_differs_from_fresh": differs_from_fresh,
+                            "mismatches": bad, "level": "counted" if name in KEEP_COUNTED_ONLY else "alarm"}
+    dist["scc_reader_with_one_attribute_kept_vs_partial_reset_model"] = keep_stats
     src = source_reset_fields(ctx.repo)
     note = None
     if src is not None and set(src) != set(full):
